@@ -27,6 +27,10 @@ var c04Times = append([]hms{{0, 0, 1}, {11, 59, 59}, {12, 0, 0}, {12, 0, 1}, {23
 
 var dayStepsFull = []int{0, 1, -1, 2, -2, 29, -29, 30, -30, 31, -31, 59, -59, 354, -354, 355, -355, 365, -365, 366, -366, 384, -384, 1000, -1000, 36525, -36525}
 var dayStepsQuick = []int{0, 1, -1, 2, -2, 30, -30, 31, -31, 59, -59, 365, -365, 366, -366, 1000, -1000, 36525, -36525}
+
+// c04CmpTimes: moment alphabet of the comparison matrix (neighbouring seconds, minutes and hours at both ends of the day)
+var c04CmpTimes = []hms{{0, 0, 0}, {0, 0, 1}, {0, 0, 59}, {0, 1, 0}, {0, 59, 59}, {1, 0, 0}, {12, 30, 15}, {12, 30, 16}, {12, 31, 15}, {13, 30, 15}, {23, 59, 0}, {23, 59, 58}, {23, 59, 59}}
+
 var hourSteps = []int{1, -1, 23, -23, 24, -24, 25, -25, 1000, -1000}
 var monthSteps = []int{1, -1, 11, -11, 12, -12, 13, -13, 1200, -1200}
 var yearSteps = []int{1, -1, 4, -4, 100, -100, 400, -400}
@@ -177,6 +181,14 @@ func runC04(w *W) {
 							continue
 						}
 						w.Viol("C04:JDinverse:"+ymd, fmt.Sprintf("NewSolarFromJulianDay(%.9f) = %s, nearest valid second is %04d-%02d-%02d %02d:%02d:%02d", jd, got.ToYmdHms(), ry, rm, rd, rs/3600, rs/60%60, rs%60), jd)
+						continue
+					}
+					// the object answers like the same date-time built from its fields: weekday of its own day, a
+					// Julian Day within the rounding half second, one-day steps from its own day
+					wantJD := float64(rj) - 0.5 + float64(rs)/86400
+					if got.GetWeek() != r1Weekday(rj) || math.Abs(got.GetJulianDay()-wantJD) > 0.5001/86400 || got.Subtract(s) != rj-j || got.NextDay(0).ToYmdHms() != got.ToYmdHms() {
+						w.Viol("C04:JDinverse:object:"+ymd, fmt.Sprintf("NewSolarFromJulianDay(%.9f) prints %s but answers weekday %d (reference %d), Julian Day %.9f (its fields give %.9f), Subtract(%s)=%d",
+							jd, got.ToYmdHms(), got.GetWeek(), r1Weekday(rj), got.GetJulianDay(), wantJD, ymd, got.Subtract(s)), jd)
 					}
 				}
 			}
@@ -230,6 +242,36 @@ func runC04(w *W) {
 					w.Viol(fmt.Sprintf("C04:IsBeforeAfter:%s:%d", ymd, n), "IsBefore/IsAfter disagree with instant order for "+a.ToYmdHms()+" vs "+b.ToYmdHms(), ymd)
 				}
 				w.R.Evals += 6
+			}
+			// comparison / difference matrix at one-second resolution: every ordered pair of the moment alphabet
+			// on this day and on (this day, next day)
+			if j+1 <= jdnLast {
+				ny, nm, nd := r1FromJDN(j + 1)
+				var today, next []*calendar.Solar
+				for _, t := range c04CmpTimes {
+					today = append(today, calendar.NewSolar(y, m, d, t.h, t.m, t.s))
+					next = append(next, calendar.NewSolar(ny, nm, nd, t.h, t.m, t.s))
+				}
+				for i, a := range today {
+					ti := c04CmpTimes[i]
+					ia := ti.h*3600 + ti.m*60 + ti.s
+					for k := range c04CmpTimes {
+						tk := c04CmpTimes[k]
+						for dd, b := range []*calendar.Solar{today[k], next[k]} {
+							ib := dd*86400 + tk.h*3600 + tk.m*60 + tk.s
+							w.R.Evals += 6
+							if a.IsAfter(b) != (ia > ib) || a.IsBefore(b) != (ia < ib) || b.IsAfter(a) != (ib > ia) || b.IsBefore(a) != (ib < ia) {
+								w.Viol("C04:IsBeforeAfter:matrix:"+ymd, "IsBefore/IsAfter disagree with instant order for "+a.ToYmdHms()+" vs "+b.ToYmdHms(), ymd)
+							}
+							if got := b.Subtract(a); got != dd {
+								w.Viol("C04:Subtract:matrix:"+ymd, fmt.Sprintf("%s.Subtract(%s) = %d, day count says %d", b.ToYmdHms(), a.ToYmdHms(), got, dd), ymd)
+							}
+							if got, want := b.SubtractMinute(a), dd*1440+(tk.h*60+tk.m)-(ti.h*60+ti.m); got != want {
+								w.Viol("C04:SubtractMinute:matrix:"+ymd, fmt.Sprintf("%s.SubtractMinute(%s) = %d, reference %d", b.ToYmdHms(), a.ToYmdHms(), got, want), ymd)
+							}
+						}
+					}
+				}
 			}
 			// additivity NextDay(a).NextDay(b) == NextDay(a+b)
 			for _, ab := range [][2]int{{1, 1}, {31, -30}, {-31, 59}, {365, 1}, {-366, 1000}, {59, 306}} {
